@@ -193,3 +193,13 @@ mod test {
         println!("{}", SimpleHeuristic {}.evaluate(&Bitboard::from_fen_string_unchecked("rn2k2r/ppp2ppp/8/3pPP2/3P1q2/P1KB4/P1P4P/3R2N1 w kq - 0 14"), 0, true));
     }
 }
+
+/// Verification hook: the evaluation constants (compiled only with `--cfg inkayaku_verif`).
+#[cfg(inkayaku_verif)]
+pub mod verif {
+    /// `[stage][piece - 1][square]` for white and black.
+    pub fn tables() -> ([[[i32; 64]; 6]; 3], [[[i32; 64]; 6]; 3]) { (super::WHITE_TABLES, super::BLACK_TABLES) }
+
+    /// pawn, knight, bishop, rook, queen
+    pub fn piece_values() -> [u32; 5] { [super::PAWN_VALUE, super::KNIGHT_VALUE, super::BISHOP_VALUE, super::ROOK_VALUE, super::QUEEN_VALUE] }
+}
